@@ -243,7 +243,7 @@ Proof.
   intros [H1 H2]. unfold parse_time_stamp. destruct (u =? 0xFFFFFFFF); [intros E; inversion E; subst; now split|].
   destruct (k =? kind_timeutc).
   - destruct (n =? c_fieldNumTimeStamp); intros E; inversion E; subst; now split.
-  - destruct ((ds_ts s =? 0) || (ds_ts s <? c_systemTimeMarker)); intros E; inversion E; subst; now split.
+  - destruct (negb (ds_hasts s) || (ds_ts s <? c_systemTimeMarker)); intros E; inversion E; subst; now split.
 Qed.
 
 Lemma okp_bind_get {B} (J : dstate -> Prop) (f : dstate -> P B) :
@@ -268,7 +268,7 @@ Ltac cs_solve :=
   match goal with
   | H : cs ?um ?uf ?s, E : parse_time_stamp ?s _ _ _ = (_, ?s') |- cs ?um ?uf ?s' => exact (pts_cs _ _ _ _ _ _ _ _ H E)
   | H : cs ?um ?uf ?s |- cs ?um ?uf _ =>
-      destruct H as [? ?]; split; cbn [with_file with_defs with_time with_quirk ds_unkm ds_unkf]; assumption
+      destruct H as [? ?]; split; cbn [with_file with_defs with_time ds_unkm ds_unkf]; assumption
   end.
 
 Ltac triv_solve := exact I.
@@ -485,10 +485,10 @@ Proof.
       intros s' [H1 H2]. split; [now right|exact H2]. }
     destruct c; cbn [negb]; [|apply Hfin, Hs1].
     unfold get_st. cbn [bind]. rewrite run_get.
-    destruct (ds_ts s1 =? 0); [apply Hfin, Hs1|].
+    destruct (negb (ds_hasts s1)); [apply Hfin, Hs1|].
     unfold put_st. cbn [bind]. rewrite run_put.
     match goal with |- context [run_a _ x1 ?s2] => assert (Hs2 : cs (dm_um o dm um) uf s2) end.
-    { destruct Hs1 as [H1 H2]. destruct (_ =? 0); split; cbn [with_quirk with_time ds_unkm ds_unkf]; assumption. }
+    { destruct Hs1 as [H1 H2]. split; cbn [with_time ds_unkm ds_unkf]; assumption. }
     destruct (get_field (dm_gmn dm) c_fieldNumTimeStamp) as [p|]; [|apply Hfin, Hs2].
     destruct msgv as [m|]; [|exact I].
     destruct (field_type (dm_gmn dm) (pf_sindex p)) as [ty|]; [|exact I].
@@ -608,24 +608,23 @@ Qed.
    it completes the list and goes on with the remaining fuel (out of fuel: the same panic on both sides) *)
 Lemma records_then : forall rs o pre fb gb ft s0 ss0 ss1 tl t n lim,
   Inv o pre fb gb ft s0 ss0 ->
-  stream_wf rs = true -> no_time_quirk_from ss0 rs = true -> denote_from ss0 rs = Some ss1 ->
+  stream_wf rs = true -> denote_from ss0 rs = Some ss1 ->
   (n + List.length (ser_records rs) <= lim)%nat ->
   exists s1, Inv o pre fb gb ft s1 ss1 /\
     forall fuel,
       run_a (decode_file_data o fuel) (ast_at (ser_records rs) tl t n lim) s0 =
       run_a (decode_file_data o (fuel - List.length rs)) (mk_ast tl t (n + List.length (ser_records rs)) lim) s1.
 Proof.
-  induction rs as [|r rest IH]; intros o pre fb gb ft s0 ss0 ss1 tl t n lim HI Hwf Hq Hden Hlim.
+  induction rs as [|r rest IH]; intros o pre fb gb ft s0 ss0 ss1 tl t n lim HI Hwf Hden Hlim.
   - cbn [denote_from] in Hden. inversion Hden; subst ss1. exists s0. split; [exact HI|]. intros fuel.
     cbn [ser_records flat_map List.length]. rewrite Nat.sub_0_r, Nat.add_0_r. reflexivity.
   - cbn [stream_wf forallb] in Hwf. apply andb_prop in Hwf. destruct Hwf as [Hwf1 Hwf].
-    cbn [no_time_quirk_from] in Hq. apply andb_prop in Hq. destruct Hq as [Hq1 Hq].
     cbn [denote_from] in Hden. destruct (denote_record ss0 r) as [ssm|] eqn:Edr; [|discriminate].
     change (ser_records (r :: rest)) with (ser_record r ++ ser_records rest) in *.
     rewrite app_length in Hlim. pose proof (ser_record_nonempty r) as Hne.
-    destruct (record_step o pre fb gb ft s0 ss0 r ssm (ser_records rest ++ tl) t n lim HI Hwf1 Hq1 Edr ltac:(lia))
+    destruct (record_step o pre fb gb ft s0 ss0 r ssm (ser_records rest ++ tl) t n lim HI Hwf1 Edr ltac:(lia))
       as (sm & Hrun & HIm).
-    destruct (IH o pre fb gb ft sm ssm ss1 tl t (n + List.length (ser_record r))%nat lim HIm Hwf Hq Hden ltac:(lia))
+    destruct (IH o pre fb gb ft sm ssm ss1 tl t (n + List.length (ser_record r))%nat lim HIm Hwf Hden ltac:(lia))
       as (s1 & HI1 & Heq).
     exists s1. split; [exact HI1|]. intros fuel. destruct fuel as [|f]; [reflexivity|].
     cbn [decode_file_data]. rewrite run_more.
@@ -637,14 +636,14 @@ Qed.
 (* (i) at least the counts of the completed records, whatever follows them and however it ends *)
 Theorem counts_on_failure_lower : forall rs o pre fb gb ft s0 ss0 ss1 junk t n lim fuel,
   Inv o pre fb gb ft s0 ss0 ->
-  stream_wf rs = true -> no_time_quirk_from ss0 rs = true -> denote_from ss0 rs = Some ss1 ->
+  stream_wf rs = true -> denote_from ss0 rs = Some ss1 ->
   (n + List.length (ser_records rs) <= lim)%nat ->
   post (fun sf => (o_unkm o = true -> le1 (ss_unkm ss1) (ds_unkm sf)) /\
                   (o_unkf o = true -> le2 (ss_unkf ss1) (ds_unkf sf)))
        (run_a (decode_file_data o fuel) (mk_ast (ser_records rs ++ junk) t n lim) s0).
 Proof.
-  intros rs o pre fb gb ft s0 ss0 ss1 junk t n lim fuel HI Hwf Hq Hden Hlim.
-  destruct (records_then rs o pre fb gb ft s0 ss0 ss1 junk t n lim HI Hwf Hq Hden Hlim) as (s1 & HI1 & Heq).
+  intros rs o pre fb gb ft s0 ss0 ss1 junk t n lim fuel HI Hwf Hden Hlim.
+  destruct (records_then rs o pre fb gb ft s0 ss0 ss1 junk t n lim HI Hwf Hden Hlim) as (s1 & HI1 & Heq).
   change (mk_ast (ser_records rs ++ junk) t n lim) with (ast_at (ser_records rs) junk t n lim).
   rewrite Heq. unfold post.
   eapply post2_weaken; [apply loop_grows| |]; intros sf [H1 H2]; split; intros Ho.
@@ -741,7 +740,7 @@ Qed.
 
 (* a strict prefix of a record the decoder completes is not enough to complete a record *)
 Lemma trunc_not_ok o pre fb gb ft s1 ss1 r ss2 cut rem t n lim :
-  Inv o pre fb gb ft s1 ss1 -> rec_wf r = true -> record_time_ok ss1 r = true -> denote_record ss1 r = Some ss2 ->
+  Inv o pre fb gb ft s1 ss1 -> rec_wf r = true -> denote_record ss1 r = Some ss2 ->
   ser_record r = cut ++ rem -> rem <> [] ->
   match run_a (parse_record o) (mk_ast cut t n lim) s1 with
   | ROk _ _ _ => False
@@ -750,9 +749,9 @@ Lemma trunc_not_ok o pre fb gb ft s1 ss1 r ss2 cut rem t n lim :
   | _ => True
   end.
 Proof.
-  intros HI Hwf Hq Hden Hser Hrem.
+  intros HI Hwf Hden Hser Hrem.
   set (lim' := Nat.max lim (n + List.length (ser_record r))).
-  destruct (record_step o pre fb gb ft s1 ss1 r ss2 [] t n lim' HI Hwf Hq Hden ltac:(lia)) as (s2 & Hrun & _).
+  destruct (record_step o pre fb gb ft s1 ss1 r ss2 [] t n lim' HI Hwf Hden ltac:(lia)) as (s2 & Hrun & _).
   unfold ast_at in Hrun. rewrite app_nil_r in Hrun. cbn [app] in Hrun.
   pose proof (run_ext (parse_record o) (nm_record o) (mk_ast cut t n lim) s1 rem lim' ltac:(cbn [a_limit]; lia)) as He.
   unfold ext_x in He. cbn [a_rest a_term a_n] in He. rewrite <- Hser in He. rewrite Hrun in He.
@@ -782,13 +781,13 @@ Proof. destruct r; cbn [post post2]; auto. Qed.
 
 (* the loop on a strict prefix of one more acceptable record *)
 Lemma trunc_loop o pre fb gb ft s1 ss1 r ss2 cut rem t lim :
-  Inv o pre fb gb ft s1 ss1 -> rec_wf r = true -> record_time_ok ss1 r = true -> denote_record ss1 r = Some ss2 ->
+  Inv o pre fb gb ft s1 ss1 -> rec_wf r = true -> denote_record ss1 r = Some ss2 ->
   ser_record r = cut ++ rem -> rem <> [] ->
   forall fuel n,
   post (fun sf => (o_unkm o = true -> le1 (ds_unkm sf) (ss_unkm ss2)) /\ (o_unkf o = true -> le2 (ds_unkf sf) (ss_unkf ss2)))
        (run_a (decode_file_data o fuel) (mk_ast cut t n lim) s1).
 Proof.
-  intros HI Hwf Hq Hden Hser Hrem fuel n.
+  intros HI Hwf Hden Hser Hrem fuel n.
   assert (Hsame : (o_unkm o = true -> le1 (ds_unkm s1) (ss_unkm ss2)) /\ (o_unkf o = true -> le2 (ds_unkf s1) (ss_unkf ss2))).
   { apply (trunc_bound o pre fb gb ft s1 ss1 r ss2 s1 HI Hwf Hden). apply rec_bound_same, cs_self. }
   destruct fuel as [|f]; [exact I|].
@@ -796,7 +795,7 @@ Proof.
   rewrite run_bind. destruct cut as [|b cut'].
   - destruct (parse_record_nil o t n lim s1) as [e He]. rewrite He. cbn [rbind]. exact Hsame.
   - pose proof (record_spec o (mk_ast (b :: cut') t n lim) s1 _ _ (cs_self s1)) as Hspec.
-    pose proof (trunc_not_ok o pre fb gb ft s1 ss1 r ss2 (b :: cut') rem t n lim HI Hwf Hq Hden Hser Hrem) as Hno.
+    pose proof (trunc_not_ok o pre fb gb ft s1 ss1 r ss2 (b :: cut') rem t n lim HI Hwf Hden Hser Hrem) as Hno.
     cbn [a_rest hd] in Hspec.
     assert (Hb : hd 0 (ser_record r) = b) by (rewrite Hser; reflexivity).
     destruct (run_a (parse_record o) (mk_ast (b :: cut') t n lim) s1) as [a x' s'|e x' s'|e x' s'|w|];
@@ -808,8 +807,8 @@ Qed.
    between the counts of the completed records and those including the record in flight *)
 Theorem counts_on_failure_truncated : forall rs r cut rem o pre fb gb ft s0 ss0 ss1 ss2 t n lim fuel,
   Inv o pre fb gb ft s0 ss0 ->
-  stream_wf rs = true -> no_time_quirk_from ss0 rs = true -> denote_from ss0 rs = Some ss1 ->
-  rec_wf r = true -> record_time_ok ss1 r = true -> denote_record ss1 r = Some ss2 ->
+  stream_wf rs = true -> denote_from ss0 rs = Some ss1 ->
+  rec_wf r = true -> denote_record ss1 r = Some ss2 ->
   ser_record r = cut ++ rem -> rem <> [] ->
   (n + List.length (ser_records rs) <= lim)%nat ->
   post (fun sf =>
@@ -817,20 +816,20 @@ Theorem counts_on_failure_truncated : forall rs r cut rem o pre fb gb ft s0 ss0 
           ((o_unkm o = true -> le1 (ds_unkm sf) (ss_unkm ss2)) /\ (o_unkf o = true -> le2 (ds_unkf sf) (ss_unkf ss2))))
        (run_a (decode_file_data o fuel) (mk_ast (ser_records rs ++ cut) t n lim) s0).
 Proof.
-  intros rs r cut rem o pre fb gb ft s0 ss0 ss1 ss2 t n lim fuel HI Hwf Hq Hden Hwfr Hqr Hdr Hser Hrem Hlim.
+  intros rs r cut rem o pre fb gb ft s0 ss0 ss1 ss2 t n lim fuel HI Hwf Hden Hwfr Hdr Hser Hrem Hlim.
   apply post_and.
-  - exact (counts_on_failure_lower rs o pre fb gb ft s0 ss0 ss1 cut t n lim fuel HI Hwf Hq Hden Hlim).
-  - destruct (records_then rs o pre fb gb ft s0 ss0 ss1 cut t n lim HI Hwf Hq Hden Hlim) as (s1 & HI1 & Heq).
+  - exact (counts_on_failure_lower rs o pre fb gb ft s0 ss0 ss1 cut t n lim fuel HI Hwf Hden Hlim).
+  - destruct (records_then rs o pre fb gb ft s0 ss0 ss1 cut t n lim HI Hwf Hden Hlim) as (s1 & HI1 & Heq).
     change (mk_ast (ser_records rs ++ cut) t n lim) with (ast_at (ser_records rs) cut t n lim).
-    rewrite Heq. exact (trunc_loop o pre fb gb ft s1 ss1 r ss2 cut rem t lim HI1 Hwfr Hqr Hdr Hser Hrem _ _).
+    rewrite Heq. exact (trunc_loop o pre fb gb ft s1 ss1 r ss2 cut rem t lim HI1 Hwfr Hdr Hser Hrem _ _).
 Qed.
 
 (* ... and the outcome is then never a panic or a decoder error: the loop stops with success exactly
    when the limit coincides with the end of the completed records, with an I/O error otherwise *)
 Theorem truncated_outcome : forall rs r cut rem o pre fb gb ft s0 ss0 ss1 ss2 t n lim fuel,
   Inv o pre fb gb ft s0 ss0 ->
-  stream_wf rs = true -> no_time_quirk_from ss0 rs = true -> denote_from ss0 rs = Some ss1 ->
-  rec_wf r = true -> record_time_ok ss1 r = true -> denote_record ss1 r = Some ss2 ->
+  stream_wf rs = true -> denote_from ss0 rs = Some ss1 ->
+  rec_wf r = true -> denote_record ss1 r = Some ss2 ->
   ser_record r = cut ++ rem -> rem <> [] ->
   (n + List.length (ser_records rs) <= lim)%nat -> (List.length rs < fuel)%nat ->
   match run_a (decode_file_data o fuel) (mk_ast (ser_records rs ++ cut) t n lim) s0 with
@@ -839,15 +838,15 @@ Theorem truncated_outcome : forall rs r cut rem o pre fb gb ft s0 ss0 ss1 ss2 t 
   | _ => False
   end.
 Proof.
-  intros rs r cut rem o pre fb gb ft s0 ss0 ss1 ss2 t n lim fuel HI Hwf Hq Hden Hwfr Hqr Hdr Hser Hrem Hlim Hfuel.
-  destruct (records_then rs o pre fb gb ft s0 ss0 ss1 cut t n lim HI Hwf Hq Hden Hlim) as (s1 & HI1 & Heq).
+  intros rs r cut rem o pre fb gb ft s0 ss0 ss1 ss2 t n lim fuel HI Hwf Hden Hwfr Hdr Hser Hrem Hlim Hfuel.
+  destruct (records_then rs o pre fb gb ft s0 ss0 ss1 cut t n lim HI Hwf Hden Hlim) as (s1 & HI1 & Heq).
   change (mk_ast (ser_records rs ++ cut) t n lim) with (ast_at (ser_records rs) cut t n lim).
   rewrite Heq. destruct (fuel - List.length rs)%nat as [|f] eqn:Ef; [lia|].
   cbn [decode_file_data run_a a_n a_limit].
   destruct (Nat.ltb (n + List.length (ser_records rs)) lim) eqn:Elt.
   - apply Nat.ltb_lt in Elt. rewrite run_bind.
     pose proof (trunc_not_ok o pre fb gb ft s1 ss1 r ss2 cut rem t (n + List.length (ser_records rs))%nat lim
-                  HI1 Hwfr Hqr Hdr Hser Hrem) as Hno.
+                  HI1 Hwfr Hdr Hser Hrem) as Hno.
     pose proof (run_a_no_fuel (parse_record o) (mk_ast cut t (n + List.length (ser_records rs)) lim) s1) as Hnf.
     destruct (run_a (parse_record o) (mk_ast cut t (n + List.length (ser_records rs)) lim) s1) as [a x' s'|e x' s'|e x' s'|w|];
       cbn [rbind]; cbv beta iota in Hno; try contradiction; try exact Elt; try (now apply Hnf).
@@ -1022,8 +1021,8 @@ Proof. destruct r; cbn [post post2]; auto. Qed.
    reference counts of the completed records and those including the truncated record *)
 Theorem counts_on_failure_file : forall rs r cut rem o pre fb gb ft s0 ss0 ss1 ss2 t n lim fuel,
   Inv o pre fb gb ft s0 ss0 -> distinct_keys s0 ->
-  stream_wf rs = true -> no_time_quirk_from ss0 rs = true -> denote_from ss0 rs = Some ss1 ->
-  rec_wf r = true -> record_time_ok ss1 r = true -> denote_record ss1 r = Some ss2 ->
+  stream_wf rs = true -> denote_from ss0 rs = Some ss1 ->
+  rec_wf r = true -> denote_record ss1 r = Some ss2 ->
   ser_record r = cut ++ rem -> rem <> [] ->
   (n + List.length (ser_records rs) <= lim)%nat ->
   post (fun sf =>
@@ -1035,11 +1034,11 @@ Theorem counts_on_failure_file : forall rs r cut rem o pre fb gb ft s0 ss0 ss1 s
                       forall m k, cnt2 m k (ss_unkf ss1) <= cnt2 m k lf <= cnt2 m k (ss_unkf ss2)))
        (run_a (decode_file_data o fuel) (mk_ast (ser_records rs ++ cut) t n lim) s0).
 Proof.
-  intros rs r cut rem o pre fb gb ft s0 ss0 ss1 ss2 t n lim fuel HI Hd Hwf Hq Hden Hwfr Hqr Hdr Hser Hrem Hlim.
+  intros rs r cut rem o pre fb gb ft s0 ss0 ss1 ss2 t n lim fuel HI Hd Hwf Hden Hwfr Hdr Hser Hrem Hlim.
   eapply post_weaken.
   - apply post_and.
     + exact (counts_on_failure_truncated rs r cut rem o pre fb gb ft s0 ss0 ss1 ss2 t n lim fuel
-               HI Hwf Hq Hden Hwfr Hqr Hdr Hser Hrem Hlim).
+               HI Hwf Hden Hwfr Hdr Hser Hrem Hlim).
     + exact (loop_distinct o fuel _ s0 Hd).
   - cbv beta. intros sf [[[L1 L2] [U1 U2]] Hdk].
     destruct (finalize_counts o sf Hdk) as [F1 F2]. split; intros Ho.
@@ -1081,21 +1080,19 @@ Proof.
 Qed.
 
 Lemma denote_from_split : forall rs r rest ss0 ssF,
-  stream_wf (rs ++ r :: rest) = true -> no_time_quirk_from ss0 (rs ++ r :: rest) = true ->
+  stream_wf (rs ++ r :: rest) = true ->
   denote_from ss0 (rs ++ r :: rest) = Some ssF ->
-  exists ss1 ss2, stream_wf rs = true /\ no_time_quirk_from ss0 rs = true /\ denote_from ss0 rs = Some ss1 /\
-                  rec_wf r = true /\ record_time_ok ss1 r = true /\ denote_record ss1 r = Some ss2.
+  exists ss1 ss2, stream_wf rs = true /\ denote_from ss0 rs = Some ss1 /\
+                  rec_wf r = true /\ denote_record ss1 r = Some ss2.
 Proof.
-  induction rs as [|a rs IH]; intros r rest ss0 ssF Hwf Hq Hden.
+  induction rs as [|a rs IH]; intros r rest ss0 ssF Hwf Hden.
   - cbn [app] in *. cbn [stream_wf forallb] in Hwf. apply andb_prop in Hwf. destruct Hwf as [Hwf1 _].
-    cbn [no_time_quirk_from] in Hq. apply andb_prop in Hq. destruct Hq as [Hq1 _].
     cbn [denote_from] in Hden. destruct (denote_record ss0 r) as [ss2|] eqn:E; [|discriminate].
     exists ss0, ss2. repeat split; assumption.
   - cbn [app] in *. cbn [stream_wf forallb] in Hwf. apply andb_prop in Hwf. destruct Hwf as [Hwf1 Hwf].
-    cbn [no_time_quirk_from] in Hq. apply andb_prop in Hq. destruct Hq as [Hq1 Hq].
     cbn [denote_from] in Hden. destruct (denote_record ss0 a) as [ssm|] eqn:E; [|discriminate].
-    destruct (IH r rest ssm ssF Hwf Hq Hden) as (ss1 & ss2 & H1 & H2 & H3 & H4 & H5 & H6).
-    exists ss1, ss2. cbn [stream_wf forallb no_time_quirk_from denote_from]. rewrite E, Hwf1, Hq1.
+    destruct (IH r rest ssm ssF Hwf Hden) as (ss1 & ss2 & H1 & H3 & H4 & H6).
+    exists ss1, ss2. cbn [stream_wf forallb denote_from]. rewrite E, Hwf1.
     repeat split; assumption.
 Qed.
 
@@ -1104,7 +1101,7 @@ Qed.
    are complete in the prefix and those after the record the prefix cuts *)
 Theorem counts_on_failure_prefix : forall full inp o pre fb gb ft s0 ss0 ssF t n lim fuel,
   Inv o pre fb gb ft s0 ss0 ->
-  stream_wf full = true -> no_time_quirk_from ss0 full = true -> denote_from ss0 full = Some ssF ->
+  stream_wf full = true -> denote_from ss0 full = Some ssF ->
   prefix inp (ser_records full) -> inp <> ser_records full ->
   (n + List.length inp <= lim)%nat ->
   exists rs r rest cut rem ss1 ss2,
@@ -1115,15 +1112,15 @@ Theorem counts_on_failure_prefix : forall full inp o pre fb gb ft s0 ss0 ssF t n
             ((o_unkm o = true -> le1 (ds_unkm sf) (ss_unkm ss2)) /\ (o_unkf o = true -> le2 (ds_unkf sf) (ss_unkf ss2))))
          (run_a (decode_file_data o fuel) (mk_ast inp t n lim) s0).
 Proof.
-  intros full inp o pre fb gb ft s0 ss0 ssF t n lim fuel HI Hwf Hq Hden Hp Hne Hlim.
+  intros full inp o pre fb gb ft s0 ss0 ssF t n lim fuel HI Hwf Hden Hp Hne Hlim.
   destruct (prefix_split full inp Hp) as [E|(rs & r & rest & cut & rem & Hfull & Hinp & Hser & Hrem)]; [contradiction|].
-  subst full. destruct (denote_from_split rs r rest ss0 ssF Hwf Hq Hden) as (ss1 & ss2 & H1 & H2 & H3 & H4 & H5 & H6).
+  subst full. destruct (denote_from_split rs r rest ss0 ssF Hwf Hden) as (ss1 & ss2 & H1 & H3 & H4 & H6).
   exists rs, r, rest, cut, rem, ss1, ss2.
   split; [reflexivity|]. split; [exact Hinp|]. split; [exact Hser|]. split; [exact Hrem|].
   split; [exact H3|]. split; [exact H6|].
   subst inp. rewrite app_length in Hlim.
   exact (counts_on_failure_truncated rs r cut rem o pre fb gb ft s0 ss0 ss1 ss2 t n lim fuel
-           HI H1 H2 H3 H4 H5 H6 Hser Hrem ltac:(lia)).
+           HI H1 H3 H4 H6 Hser Hrem ltac:(lia)).
 Qed.
 
 Print Assumptions record_spec.
